@@ -26,7 +26,10 @@ def main(ctx):
                     # member templates (methods, static methods, constructors) with nested instantiations
                     extra_streams=[(dict(p_template=0.9, max_members=8, max_decls=3), 0.5),
                                    # default values in quantity (string / character literals with blanks and tabs, nested calls)
-                                   (dict(rich_defaults=True, p_default=0.8, max_args=4), 0.4)])
+                                   (dict(rich_defaults=True, p_default=0.8, max_args=4), 0.4),
+                                   # enumerators named like Python keywords and builtins: each maps to the C++ enumerator of the same name
+                                   (dict(enumerators=["None", "in", "from", "pass", "yield", "is", "True", "lambda", "print", "match", "in_", "None_", "A"],
+                                         extra_kinds=['enum', 'enum', 'cls'], extra_member_kinds=['enum', 'enum']), 0.3)])
     return fw.finish(ctx, search=search, assumptions=[
         "pybind11 and C++ call semantics are modelled (dispatch of a .def with py::arg defaults), not verified",
         "hand-written model of pybind_wrapper.py, tied byte-exactly on generated inputs"])
